@@ -1,4 +1,5 @@
 """C11 - every diagnostic names the right place (C11.R1-R6)."""
+import re
 import json
 import os
 
@@ -250,6 +251,44 @@ def r6_emitted_positions(ctx, rule="C11.R6"):
     ctx.require(rule, 1)
 
 
+def r7_argument_errors_at_the_call(ctx, rule="C11.R7"):
+    """Argument-count / argument-type diagnostics of user-defined SUB and FUNCTION calls are
+    positioned by the `pos` handed to lint_call_args: at every call site that position must be the
+    visitor's own position parameter (the call being checked), not a position read out of the
+    declaration tables (functions / subs), which would name the FUNCTION header instead."""
+    prog = ctx.prog
+    fs = [f for f in prog.fns.values() if f.name == "lint_call_args" and "user_defined_function_linter" in f.id]
+    if len(fs) != 1:
+        raise CheckError("anchor lint_call_args")
+    target = fs[0]
+    pos_index = [i for i in range(1, target.argc + 1) if target.body.locals[i]["ty"].endswith("Position")]
+    if len(pos_index) != 1:
+        raise CheckError("lint_call_args: position parameter not found")
+    pi = pos_index[0] - 1
+    n = 0
+    for g in sorted(prog.fns.values(), key=lambda f: f.id):
+        if g.body is None or g.crate != "rusty_linter":
+            continue
+        pv = None
+        for b, t in g.body.calls():
+            if mir.callee_of(t) != target.id:
+                continue
+            pv = pv or mir.Prov(g.body)
+            o = pv.of_operand(t["args"][pi])
+            txt = mir.short_origin(o)
+            from_table = mir.origin_mentions(o, lambda x: x[0] == "field" and x[2] in ("functions", "subs", "linter_context"))
+            is_param = mir.strip_all(o)[0] == "param" or re.match(r"^arg\d+(\.\w+)*$", txt) is not None
+            n += 1
+            owner = g.path.split("::", 1)[1].split("::")[-1]
+            ctx.decide(is_param and not from_table, rule, "%s:%s:call-position" % (rule, owner),
+                       "%s:%s" % (g.file, t.get("ln")), "position = %s" % txt,
+                       "%s reports argument errors at %s, which is not the position of the call being checked%s"
+                       % (owner, txt, ": it comes from the declaration table, so a wrong argument count is blamed on "
+                          "the SUB/FUNCTION header" if from_table else ""))
+    ctx.analysed_units(rule, call_sites=n)
+    ctx.require(rule, 2)
+
+
 def run(ctx):
     common.install(ctx)
     r1_with_pos(ctx)
@@ -257,3 +296,4 @@ def run(ctx):
     r3_runtime_error_positions(ctx)
     r4_stack_trace(ctx)
     r6_emitted_positions(ctx)
+    r7_argument_errors_at_the_call(ctx)
